@@ -43,6 +43,21 @@ func init() {
 		Rules: []func(*Prog, *Result){ruleC11Select, ruleC11Hide, ruleOutputGate("C11")},
 	})
 	register(PropSpec{
+		ID:    "C02",
+		Title: "Stream layering targets the right documents and treats each independently",
+		Rules: []func(*Prog, *Result){ruleMergeSourcesPrivate("C02.indep"), ruleFieldWriterCensus("C02.order")},
+	})
+	register(PropSpec{
+		ID:    "C10",
+		Title: "$merge and $replace behave as if the referenced subtree were written inline",
+		Rules: []func(*Prog, *Result){ruleReferencesReadOnly},
+	})
+	register(PropSpec{
+		ID:    "C19",
+		Title: "Producing output is a pure observation of parser state",
+		Rules: []func(*Prog, *Result){ruleOutputPure, ruleCloneContract("C19.clone"), ruleDeepClone, ruleFieldWriterCensus("C19.docs")},
+	})
+	register(PropSpec{
 		ID:    "C09",
 		Title: "Evaluation is deterministic",
 		Rules: []func(*Prog, *Result){ruleMapRanges, ruleSortedMap, ruleGlobals, ruleNondetSources},
